@@ -1002,8 +1002,9 @@ def replay(ctx: Ctx, data):
     for sig, what in o.failures:
         if want is None or sig == want:
             return Failure(sig, what, data)
-    if o.failures:
-        return Failure(o.failures[0][0], o.failures[0][1], data)
+    for sig, what in o.failures:                    # a different violation, unless it is one of the recorded findings
+        if sig not in (SIG_CLASH, SIG_EMPTY, SIG_ABS):
+            return Failure(sig, what, data)
     return None
 
 
